@@ -217,6 +217,51 @@ def _collect(log):
 ARGS = {'save_reactor': False, 'verbose': False, 'no_power_calc': True}
 
 
+def scribble(obj, depth=0):
+    """Overwrite everything reachable in a nested structure of dicts, lists
+    and arrays, in place (entries replaced, nested containers edited)."""
+    import numpy as np
+    if depth > 12:
+        return
+    if isinstance(obj, dict):
+        for k in list(obj):
+            v = obj[k]
+            if isinstance(v, (dict, list, np.ndarray, tuple)):
+                scribble(v, depth + 1)
+                if isinstance(v, dict) and k in ('flowrate', 'outlet_temp',
+                                                 'delta_temp'):
+                    pass
+            elif isinstance(v, bool):
+                obj[k] = not v
+            elif isinstance(v, (int, float)):
+                obj[k] = v + 1
+            elif isinstance(v, str):
+                obj[k] = v + '_x'
+    elif isinstance(obj, list):
+        for i in range(len(obj)):
+            v = obj[i]
+            if isinstance(v, dict):
+                scribble(v, depth + 1)
+                # a new dictionary in place of the old one, as the
+                # orificing set-up writes new boundary conditions
+                obj[i] = {'flowrate': 0.12345}
+            elif isinstance(v, (list, np.ndarray, tuple)):
+                scribble(v, depth + 1)
+            elif isinstance(v, bool):
+                obj[i] = not v
+            elif isinstance(v, (int, float)):
+                obj[i] = v + 1
+            elif isinstance(v, str):
+                obj[i] = v + '_x'
+    elif isinstance(obj, tuple):
+        for v in obj:
+            if isinstance(v, (dict, list, np.ndarray)):
+                scribble(v, depth + 1)
+    elif isinstance(obj, np.ndarray):
+        if obj.dtype.kind == 'f' and obj.flags.writeable:
+            obj += 1.0
+
+
 def execute(args):
     """Worker: all schedules for one case. Returns a Trace_Run trace."""
     label, case, opts = args
@@ -286,6 +331,18 @@ def execute(args):
         ev.append({'e': 'Parse', 'run': nrun, 'd': iid(d0)})
         guarded(lambda: dmain.run_dassh(inp, dict(ARGS)), 'serial')
         finish(d, alltp, single=(ntp == 1))
+        # ---- between the runs: a clone of the input is edited all over
+        # (what the orificing iterations do to their copies of the input:
+        # new boundary conditions written into the assignment entries);
+        # the input itself stays as parsed
+        try:
+            cl = inp.clone()
+            scribble(cl.data)
+            ev.append({'e': 'Clone', 'run': nrun,
+                       'post': iid(deep_digest(inp.data, (str(root),)))})
+        except BaseException as e:
+            ev.append({'e': 'Crash', 'run': nrun, 'stage': 'clone',
+                       'exc': type(e).__name__, 'msg': str(e)[:200]})
         # ---- run 2: again, same input object
         nrun += 1
         _CTX.update(log=os.path.join(str(root), f'events{nrun}'), run=nrun,
